@@ -11,6 +11,11 @@ package main
 // own deadline, cancel() under a far own / inherited / wrapped deadline, cancel() of the parent.
 // Channel and wait primitives are rendered waiting for ever or as loops of operations that
 // never have to wait (they must still observe the context).
+// Host-provided builtins (hcb) call script functions back through the public callback API
+// (object.GetCallFunc) with every kind of derived context: the caller's own, a WithCancel
+// child, WithValue (model: hf, cancelled with the run's) and context.WithoutCancel /
+// Background + the VM's values (model: hd, detached); the halt flag must stop the callback
+// whatever context it was handed.
 // Impl model: RisorModel/C06 through the oracle (`C06 run <instant> <shape>`, `C06 rerun
 // <entry> <instant> <shape>` for a used VM): the set of outcomes the model allows for each
 // evaluation (error class of the call | threads that never stop).  Spec: evaluated here on
@@ -37,6 +42,7 @@ import (
 	"github.com/risor-io/risor"
 	"github.com/risor-io/risor/compiler"
 	"github.com/risor-io/risor/object"
+	ros "github.com/risor-io/risor/os"
 	"github.com/risor-io/risor/parser"
 	"github.com/risor-io/risor/vm"
 )
@@ -48,6 +54,8 @@ const (
 	c06FindLossy   = "C06-context-error-identity-lost"
 	c06FindSwallow = "C06-cancellation-swallowed-nil-result"
 	c06FindReset   = "C06-runcode-reset-loses-cancellation" // proposed, see c06Proposed
+	// proposed: the halt test returns the error of the context the CALLEE was handed
+	c06FindCallee = "C06-halt-poll-returns-callee-context-error"
 )
 
 // ---- program shapes (mirror of Risor.C06.Prog) ----
@@ -268,6 +276,30 @@ func (r *c06Render) prog(p *c06Prog, tid, ind int) {
 		}
 		r.prog(p.k, tid, ind)
 	case "W":
+		if p.arg == "hf" || p.arg == "hd" {
+			// a host-provided builtin that calls the function back through object.GetCallFunc
+			// with a derived context: hf = one that is cancelled with the caller's (0 the same
+			// context, 1 a WithCancel child, 2 WithValue), hd = one that is not (3
+			// context.WithoutCancel, 4 context.Background() with the VM's values copied)
+			kind := 0
+			if p.arg == "hf" {
+				kind = r.fl("hf", 3)
+			} else {
+				kind = 3 + r.fl("hd", 2)
+			}
+			t := strconv.Itoa(tid)
+			if p.body.kind == "S" && p.k.kind == "S" && r.fl("L", 2) == 1 {
+				// the same two loops as one: every callback is finite, the cancellation instant
+				// falls inside one of them or between two
+				r.emit(ind, "for { hcb("+strconv.Itoa(kind)+", func() { for i := 0; i < 300; i++ { tick("+t+") } }) }")
+				return
+			}
+			r.emit(ind, "hcb("+strconv.Itoa(kind)+", func() {")
+			r.prog(p.body, tid, ind+1)
+			r.emit(ind, "})")
+			r.prog(p.k, tid, ind)
+			return
+		}
 		switch p.arg {
 		case "each", "map", "filter":
 			r.emit(ind, "[1]."+p.arg+"(func(v) {")
@@ -429,6 +461,137 @@ func c06Term(r *RNG, spawns bool) *c06Prog {
 	return end
 }
 
+// ---- host-provided builtins calling script functions back with derived contexts ----
+
+// c06ComputeOnly / c06Wf mirror Risor.C06.computeOnly / wf: under a detached callee context
+// only computation, loops and the callbacks of host builtins, each, call and try are modelled.
+func c06ComputeOnly(p *c06Prog) bool {
+	switch p.kind {
+	case "D", "S":
+		return true
+	case "C":
+		return c06ComputeOnly(p.k)
+	case "W":
+		switch p.arg {
+		case "hf", "hd", "each", "call", "try":
+			return c06ComputeOnly(p.body) && c06ComputeOnly(p.k)
+		}
+	}
+	return false
+}
+
+func c06Wf(p *c06Prog) bool {
+	switch p.kind {
+	case "D", "S":
+		return true
+	case "C", "B":
+		return c06Wf(p.k)
+	case "W":
+		if p.arg == "hd" && !c06ComputeOnly(p.body) {
+			return false
+		}
+		return c06Wf(p.body) && c06Wf(p.k)
+	case "G":
+		return c06Wf(p.body) && c06Wf(p.k)
+	}
+	return false
+}
+
+// c06HostBody: code that runs inside a host callback; det = an enclosing callee context is
+// detached.  Long loops, nested calls (the recursion flavour of S), finite callbacks, further
+// callbacks (host builtins with any context kind, and the builtins of the repository).
+func c06HostBody(r *RNG, depth int, det bool) *c06Prog {
+	switch r.Intn(7) {
+	case 0, 1, 2:
+		return c06S()
+	case 3:
+		return c06C(c06S())
+	case 4:
+		return c06C(c06Done)
+	}
+	if depth >= 3 {
+		return c06S()
+	}
+	pool := []string{"hf", "hd", "hd", "each", "map", "filter", "call", "sorted", "try"}
+	if det {
+		pool = []string{"hf", "hd", "each", "call", "try"}
+	}
+	w := Pick(r, pool)
+	return c06W(w, c06HostBody(r, depth+1, det || w == "hd"), c06HostTail(r, det))
+}
+
+func c06HostTail(r *RNG, det bool) *c06Prog {
+	if det {
+		return Pick(r, []*c06Prog{c06Done, c06Done, c06C(c06Done), c06S(), c06C(c06S())})
+	}
+	return c06Tail(r, 1, 1)
+}
+
+// c06HostRandom: a host callback somewhere in a thread: at the top, after a prefix, inside
+// one of the repository's callback builtins, or inside a spawned function.
+func c06HostRandom(r *RNG) *c06Prog {
+	w := Pick(r, []string{"hf", "hd", "hd"})
+	p := c06W(w, c06HostBody(r, 1, w == "hd"), c06HostTail(r, false))
+	switch r.Intn(6) {
+	case 0:
+		p = c06C(p)
+	case 1:
+		p = c06W(Pick(r, c06Wraps), p, c06HostTail(r, false))
+	case 2:
+		p = c06G(p, c06Park(r, 1, 1))
+	case 3:
+		p = c06G(c06Thread(r, 1, 1, true), p)
+	}
+	return p
+}
+
+// c06HostSystematic: callee context kind x what the callback does x what follows the builtin x
+// what encloses it.
+func c06HostSystematic() []*c06Prog {
+	bodies := []func() *c06Prog{
+		func() *c06Prog { return c06S() },
+		func() *c06Prog { return c06C(c06S()) },
+		func() *c06Prog { return c06C(c06Done) },
+		func() *c06Prog { return c06W("each", c06S(), c06Done) },
+		func() *c06Prog { return c06W("call", c06S(), c06C(c06Done)) },
+		func() *c06Prog { return c06W("try", c06S(), c06Done) },
+		func() *c06Prog { return c06W("hf", c06S(), c06Done) },
+		func() *c06Prog { return c06W("hd", c06S(), c06Done) },
+		func() *c06Prog { return c06W("each", c06W("hd", c06S(), c06Done), c06Done) },
+		func() *c06Prog { return c06W("sorted", c06S(), c06Done) },
+	}
+	conts := []func() *c06Prog{
+		func() *c06Prog { return c06Done },
+		func() *c06Prog { return c06C(c06Done) },
+		func() *c06Prog { return c06S() },
+		func() *c06Prog { return c06B("recv", c06Done) },
+		func() *c06Prog { return c06B("sleep", c06Done) },
+	}
+	outers := []func(*c06Prog) *c06Prog{
+		func(p *c06Prog) *c06Prog { return p },
+		func(p *c06Prog) *c06Prog { return c06W("each", p, c06Done) },
+		func(p *c06Prog) *c06Prog { return c06W("sorted", p, c06S()) },
+		func(p *c06Prog) *c06Prog { return c06W("try", p, c06S()) },
+		func(p *c06Prog) *c06Prog { return c06W("hf", p, c06S()) },
+		func(p *c06Prog) *c06Prog { return c06W("hd", p, c06S()) },
+		func(p *c06Prog) *c06Prog { return c06G(p, c06S()) },
+	}
+	var out []*c06Prog
+	for _, w := range []string{"hf", "hd"} {
+		for _, body := range bodies {
+			for _, cont := range conts {
+				for _, outer := range outers {
+					p := outer(c06W(w, body(), cont()))
+					if c06Wf(p) {
+						out = append(out, p)
+					}
+				}
+			}
+		}
+	}
+	return out
+}
+
 // ---- one case on the real code ----
 
 // One evaluation on the VM of the case.
@@ -480,7 +643,7 @@ type c06Obs struct {
 
 func c06ParseReply(rep string) (m c06Model, ok bool) {
 	f := strings.Split(rep, "\t")
-	if len(f) != 6 || f[0] != "ok" {
+	if len(f) != 6 || f[0] != "ok" || len(strings.TrimPrefix(f[4], "guards=")) != 4 {
 		return m, false
 	}
 	m.parked = map[int]string{}
@@ -610,6 +773,50 @@ func c06Run(c c06Case, nThreads int, models []c06Model, accept func([]string, []
 		<-release // host code, not script code: ends when the harness says so
 		return object.Nil
 	})
+	// hcb(kind, fn): a host-provided builtin that runs a script function back on the VM
+	// through the public callback API, with a context derived from the one it was called with
+	hcb := object.NewBuiltin("hcb", func(ctx context.Context, args ...object.Object) object.Object {
+		if len(args) != 2 {
+			return object.Errorf("hcb: 2 arguments")
+		}
+		kind, ok1 := args[0].(*object.Int)
+		fn, ok2 := args[1].(*object.Function)
+		callFunc, ok3 := object.GetCallFunc(ctx)
+		if !ok1 || !ok2 || !ok3 {
+			return object.Errorf("hcb: bad arguments / no call function in the context")
+		}
+		cctx := ctx
+		switch kind.Value() {
+		case 1:
+			var cancel context.CancelFunc
+			cctx, cancel = context.WithCancel(ctx)
+			defer cancel()
+		case 2:
+			cctx = context.WithValue(ctx, c06CtxKey{}, 2)
+		case 3:
+			cctx = context.WithoutCancel(ctx)
+		case 4:
+			cctx = context.Background()
+			if o, ok := ros.GetOS(ctx); ok {
+				cctx = ros.WithOS(cctx, o)
+			}
+			cctx = object.WithCallFunc(cctx, callFunc)
+			if f, ok := object.GetSpawnFunc(ctx); ok {
+				cctx = object.WithSpawnFunc(cctx, f)
+			}
+			if f, ok := object.GetCloneCallFunc(ctx); ok {
+				cctx = object.WithCloneCallFunc(cctx, f)
+			}
+		}
+		res, err := callFunc(cctx, fn, nil)
+		if err != nil {
+			return object.NewError(err) // the error value itself is handed on
+		}
+		if res == nil {
+			return object.Nil
+		}
+		return res
+	})
 	fns := make([]*object.Function, nSt)
 	reg := object.NewBuiltin("reg", func(ctx context.Context, args ...object.Object) object.Object {
 		if len(args) == 2 {
@@ -622,7 +829,7 @@ func c06Run(c c06Case, nThreads int, models []c06Model, accept func([]string, []
 		return object.Nil
 	})
 
-	cfg := risor.NewConfig(risor.WithConcurrency(), risor.WithGlobals(map[string]any{"tick": tick, "mark": mark, "hold": hold, "reg": reg}))
+	cfg := risor.NewConfig(risor.WithConcurrency(), risor.WithGlobals(map[string]any{"tick": tick, "mark": mark, "hold": hold, "reg": reg, "hcb": hcb}))
 	codes := make([]*compiler.Code, nSt)
 	for i, st := range c.stages {
 		if st.entry == "call" {
@@ -695,6 +902,9 @@ func c06Run(c c06Case, nThreads int, models []c06Model, accept func([]string, []
 			obs.cls[i] = "ctx"
 		case ctx.Err() != nil && strings.Contains(err.Error(), ctx.Err().Error()):
 			obs.cls[i] = "msg"
+		case strings.HasPrefix(err.Error(), "panic: runtime error: index out of range [-1]"):
+			// Run/Call recovered the Go panic of vm.pop() on an empty stack
+			obs.cls[i] = "panic"
 		default:
 			obs.cls[i] = "other"
 		}
@@ -1069,7 +1279,7 @@ func c06Eval(e *Env, c c06Case) {
 			case "B":
 				e.R.H("constructs", "block:"+p.arg)
 			case "W":
-				e.R.H("constructs", "callback:"+p.arg)
+				e.R.H("constructs", "callback:"+map[string]string{"hf": "host builtin, context cancelled with the run's", "hd": "host builtin, detached context"}[p.arg]+map[bool]string{true: p.arg}[p.arg != "hf" && p.arg != "hd"])
 			case "S":
 				e.R.H("constructs", "spin")
 			case "G":
@@ -1081,6 +1291,14 @@ func c06Eval(e *Env, c c06Case) {
 		}, 0)
 	}
 	e.R.H("spawn_depth", strconv.Itoa(maxDepth))
+	for f, name := range map[string]string{"hf0": "the caller's own context", "hf1": "WithCancel child", "hf2": "WithValue", "hd0": "WithoutCancel (detached, values kept)", "hd1": "Background + values copied (detached)"} {
+		if n := strings.Count(obs.flav, f); n > 0 {
+			e.R.H("host_callback_callee_context", name)
+		}
+	}
+	if strings.Contains(obs.flav, "L1") {
+		e.R.H("host_callback_form", "loop of finite callbacks")
+	}
 	for _, f := range []string{"s0", "s1", "s2", "s3", "s4"} {
 		if strings.Contains(obs.flav, f) {
 			e.R.H("loop_form", map[string]string{"s0": "for{}", "s1": "for cond{}", "s2": "for i;c;s{}", "s3": "range in driver", "s4": "deep recursion"}[f])
@@ -1124,7 +1342,7 @@ func c06Eval(e *Env, c c06Case) {
 
 		// Spec on the real results
 		attr := func(id string, bit int) string {
-			if agree == 2 && len(m.guards) == 3 && m.guards[bit] == '1' {
+			if agree == 2 && len(m.guards) == 4 && m.guards[bit] == '1' {
 				return id
 			}
 			return ""
@@ -1145,7 +1363,19 @@ func c06Eval(e *Env, c c06Case) {
 			case "msg":
 				e.R.Spec(caseText, where+"the call returned "+obs.errText[i]+", which is not the context's error (errors.Is fails; only the text survived)", attr(c06FindLossy, 2))
 			case "nil":
-				e.R.Spec(caseText, where+"the call returned a nil error although its context fired while the program was looping/blocked", attr(c06FindSwallow, 1))
+				detail := where + "the call returned a nil error although its context fired while the program was looping/blocked"
+				if attr(c06FindSwallow, 1) == "" && attr(c06FindCallee, 3) != "" {
+					c06Proposed(e, c06FindCallee, caseText, detail+" — the halted callback of a host builtin that passed a context which is not cancelled with the run's (WithoutCancel / background + values) 'returned': eval's halt test returns ctx.Err() of the context it was handed, nil here, and nothing was left to poll")
+				} else {
+					e.R.Spec(caseText, detail, attr(c06FindSwallow, 1))
+				}
+			case "panic":
+				detail := where + "the call returned " + obs.errText[i] + ", which is neither the context's error nor a copy of its text"
+				if attr(c06FindCallee, 3) != "" {
+					c06Proposed(e, c06FindCallee, caseText, detail+" — eval's halt test returned the nil error of the detached context the callee had been handed; callFunction went on to vm.pop() the result of the abandoned frame from an empty stack")
+				} else {
+					e.R.Spec(caseText, detail, "")
+				}
 			}
 		}
 	}
@@ -1356,7 +1586,10 @@ func c06_runC06(e *Env) {
 		"{loop forms, 5 blocking primitives with/without code after them} x {no callback, each, map, filter, call, sorted, try} x {spawn depth 0..3}, and seeded random shapes " +
 		"(prefix of computes/spawns/callbacks, parking action inside up to 2 callbacks, tails after blocking calls incl. further spawns, nesting <= 3); channel/wait primitives are rendered " +
 		"either waiting for ever or as a loop of operations that never have to wait (closed channel, 1-slot lock, never-full buffer, finished thread); sequences: systematic " +
-		"{same context re-supplied after it fired while the VM was idle, retry after a cancelled evaluation, cancellation during the n-th evaluation, another live context first} x {Call, RunCode} x parking actions, and seeded random ones; " +
+		"host-provided builtins that call a script function back through object.GetCallFunc with a derived context " +
+		"{the same, WithCancel child, WithValue, WithoutCancel, Background + values} x {long loop, nested calls, finite callback, further callbacks of host builtins / each / call / try / sorted} x {what follows the builtin} x " +
+		"{enclosing callback builtin, host builtin, spawned function} and seeded random nestings (also rendered as a loop of finite callbacks), cancellation before / during / after the callback; " +
+		"sequences: systematic {same context re-supplied after it fired while the VM was idle, retry after a cancelled evaluation, cancellation during the n-th evaluation, another live context first} x {Call, RunCode} x parking actions, and seeded random ones; " +
 		"instants: context already fired before the start, fired while every thread is parked (logical sync on tick/mark counters) or after the main code returned; context kinds: cancel(), own deadline reached, " +
 		"cancel() of a context whose own / inherited / wrapped deadline is far away, cancel() of the parent; " +
 		"non-trivial when some thread would loop or block for ever without cancellation; distinct by the whole tuple"
@@ -1514,6 +1747,65 @@ func c06_runC06(e *Env) {
 		c.flavSeed = rng.Next()
 		c06Normalise(&c)
 		c06Eval(e, c)
+	}
+	// 7. host-provided builtins that call script functions back through the public callback
+	// API with every kind of derived context (same, WithCancel child, WithValue,
+	// WithoutCancel, background + values): fixed witnesses, the systematic product, random shapes
+	hostFixed := []c06Case{
+		c06Single(c06W("hd", c06S(), c06Done), "later", "cancel", 0, 1),
+		c06Single(c06W("hd", c06S(), c06S()), "later", "cancel", 0, 1),
+		c06Single(c06W("hd", c06S(), c06S()), "later", "cancel", 0, 2),
+		c06Single(c06W("hd", c06S(), c06S()), "later", "deadline", 0, 3),
+		c06Single(c06W("hd", c06S(), c06S()), "later", "parent", 0, 4),
+		c06Single(c06W("hf", c06S(), c06S()), "later", "cancel", 0, 1),
+		c06Single(c06W("hf", c06S(), c06S()), "later", "child", 0, 2),
+		c06Single(c06W("hd", c06C(c06Done), c06S()), "later", "cancel", 0, 1),
+		c06Single(c06W("hd", c06S(), c06S()), "pre", "cancel", 0, 1),
+		c06Single(c06W("each", c06W("hd", c06W("hf", c06S(), c06Done), c06Done), c06S()), "later", "far", 0, 1),
+		// on a VM that has been used before: Call / RunCode, cancellation during the detached callback
+		{stages: []c06Stage{{prog: c06C(c06Done), entry: "run"}, {prog: c06W("hd", c06S(), c06S()), entry: "call"}}, fire: 1, instant: "later", ctxKind: "cancel", flavSeed: 1},
+		{stages: []c06Stage{{prog: c06C(c06Done), entry: "run", own: true}, {prog: c06W("hd", c06S(), c06S()), entry: "runcode"}}, fire: 1, instant: "later", ctxKind: "cancel", flavSeed: 2},
+		{stages: []c06Stage{{prog: c06W("hd", c06C(c06Done), c06Done), entry: "run"}, {prog: c06W("hf", c06W("hd", c06S(), c06Done), c06S()), entry: "call"}, {prog: c06S(), entry: "call"}}, fire: 1, instant: "later", ctxKind: "cancel", flavSeed: 3},
+	}
+	for _, c := range hostFixed {
+		c06Normalise(&c)
+		c06Eval(e, c)
+	}
+	hostSys := c06HostSystematic()
+	nHostSys, nHostRand := 70, 50
+	if !e.Quick {
+		nHostSys, nHostRand = 2*len(hostSys), 700
+	}
+	for i := 0; i < nHostSys; i++ {
+		var p *c06Prog
+		if e.Quick {
+			p = hostSys[rng.Intn(len(hostSys))]
+		} else {
+			p = hostSys[i%len(hostSys)]
+		}
+		instant, kind := "later", "cancel"
+		if (e.Quick && rng.Chance(20)) || (!e.Quick && i >= len(hostSys)) {
+			instant = "pre"
+		}
+		if rng.Chance(20) {
+			kind = "deadline"
+		}
+		c06Eval(e, mk(c06Clone(p), instant, kind))
+	}
+	for i := 0; i < nHostRand; i++ {
+		p := c06HostRandom(rng)
+		if !c06Wf(p) {
+			e.R.H("host_callback_shapes_outside_the_model(skipped)", "1")
+			continue
+		}
+		instant, kind := "later", "cancel"
+		if rng.Chance(25) {
+			instant = "pre"
+		}
+		if rng.Chance(20) {
+			kind = "deadline"
+		}
+		c06Eval(e, mk(p, instant, kind))
 	}
 	// 6. the RunCode reset race, directly
 	c06ProbeReset(e, probe)
